@@ -7,6 +7,7 @@ import os
 import shutil
 import subprocess
 import sys
+import time
 import tempfile
 
 from . import extract
@@ -48,8 +49,14 @@ def apply_edits(scratch, edits):
 
 def run_check_on(scratch, prop, tier="quick"):
     env = dict(os.environ, VERIF_REPO=scratch, VERIF_TIER=tier, VERIF_NO_EVIDENCE="1")
-    r = subprocess.run([sys.executable, os.path.join(VERIF, "check"), prop, "--tier", tier],
-                       env=env, capture_output=True, text=True, cwd=VERIF)
+    for attempt in (0, 1, 2):
+        r = subprocess.run([sys.executable, os.path.join(VERIF, "check"), prop, "--tier", tier],
+                           env=env, capture_output=True, text=True, cwd=VERIF)
+        verdict = any(l.startswith(("FAIL rule=", "ANCHOR-LOST", "PASS property=", "FAIL property=")) for l in r.stdout.splitlines()) or "BUILD-FAILED" in r.stderr
+        if r.returncode == 0 or verdict:
+            break
+        # the check process died without a verdict (an environmental hiccup: a cache entry vanished, out of memory, ..): once more
+        time.sleep(1 + attempt)
     return r.returncode, r.stdout, r.stderr
 
 
